@@ -90,7 +90,9 @@ func parsePipeExpr(expr string) pipeExpr {
 		}
 	}
 
-	if !strings.Contains(expr, "|") {
+	// pipe characters inside string literals do not separate segments
+	masked := helpers.MaskQuoted(expr)
+	if !strings.Contains(masked, "|") {
 		// Check if it's a function call (including no-arg functions like "fn()")
 		if matches := filterRe.FindStringSubmatch(trimmed); matches != nil && matches[1] != "" {
 			return pipeExpr{
@@ -107,7 +109,15 @@ func parsePipeExpr(expr string) pipeExpr {
 		return pipeExpr{initial: trimmed}
 	}
 
-	parts := strings.Split(expr, "|")
+	var parts []string
+	start := 0
+	for i := 0; i < len(masked); i++ {
+		if masked[i] == '|' {
+			parts = append(parts, expr[start:i])
+			start = i + 1
+		}
+	}
+	parts = append(parts, expr[start:])
 	firstPart := strings.TrimSpace(parts[0])
 
 	result := pipeExpr{
